@@ -54,7 +54,7 @@ func TestC18(t *testing.T) {
 		}
 	}
 	cat = append(cat, c18case{NoLimit: true, Pattern: "burst"}, c18case{NoLimit: true, Pattern: "burst", TwoQ: true})
-	n := e.Pick(len(cat), len(cat)*12)
+	n := e.Pick(len(cat), len(cat)*60)
 	vlib.RunCases(t, "C18", "rate", n, func(c *vlib.Case) vlib.Result {
 		var res vlib.Result
 		cs := cat[c.Index%len(cat)]
